@@ -1,8 +1,20 @@
+/-
+  C07 — totality / containment ops: the same executable model as C06 (Driver/C06.lean), under the
+  property's own op names so that the two checks stay independent on the line protocol.
+
+    c07.verify  scriptSig scriptPubKey flags tx inIdx   → `<model> ~ <ref>`   (see Driver/C06.lean)
+    c07.eval    script stack flags tx inIdx             → `<model> ~ <ref>`
+-/
 import Driver.Util
+import Driver.C06
 
 namespace Driver.C07
 open BtcVerif Driver
 
-def handle (_op : String) (_args : List String) : Option String := none
+def handle (op : String) (args : List String) : Option String :=
+  match op with
+  | "c07.verify" => C06.handle "c06.verify" args
+  | "c07.eval" => C06.handle "c06.eval" args
+  | _ => none
 
 end Driver.C07
